@@ -15,13 +15,186 @@ Printer (what the code does now):
 The choices that commit ec9ecf03 (F5) introduced are parameters (`PrintCfg`), extracted from the
 source by `harness/translate_print.py` into `Generated/Print.lean`.
 
-Tokens: one token per lexical unit; a brace group `{n}`, `{n,m}`, `{n,}` is one token (its bounds
-are plain numbers here — computed bounds `{int(<n>)}` are outside this model, see C15 notes);
-literal tokens carry the terminal's leaf, regex tokens the regex id (literal quoting is modelled
-separately in `Model/PyLit.lean`).
+Tokens: one token per lexical unit; a brace group `{n}`, `{n,m}`, `{n,}` is one token; a brace group
+with a *computed* bound (`{int(<n>)}`, `{1,int(<n>)}`, `{int(<n>),}`) is the token `repC`, which
+carries the flat lexical form of its bound expressions; literal tokens carry the terminal's leaf,
+regex tokens the regex id (literal / regex quoting is modelled separately in `Model/PyLit.lean`).
+
+Expressions (computed bounds, generators `:= f(<a>)`): `Repetition.bounds_constraint.expr_data_min/max`
+and `LiteralGenerator.call` are Python text (`ast.unparse`) in which every selector occurrence is an
+internal placeholder name, plus a map from the placeholders to the searches.  The model keeps the
+structure and drops the names: `Expr = List Seg`, a segment being a chunk of Python text carried
+verbatim (`code`, opaque) or a selector occurrence (`sel`, a `PS.Top`).  `format_as_spec` substitutes
+each placeholder by its search's `format_as_spec()` (`RepetitionBoundsConstraint._format_bound`,
+`LiteralGenerator.format_as_spec`): `printE`.  Reading back, `SearchProcessor` gives every selector
+occurrence a fresh placeholder and records the search it reads: `readE` (a maximal run of selector
+tokens is one occurrence, read by `PS.readTop`).  WHERE a selector occurrence starts and ends inside
+Python text is decided by the ANTLR expression grammar, which is not modelled: the segmentation is
+taken from the real front end by the correspondence check.
+
+Nodes: `ENode` = the IR `Node` of `Model/IR.lean` + `crep`, a repetition with computed bounds.  Its
+language over child tokens is that of its static approximation (`erase`): the `min`/`max` the
+`Repetition` node is built with in `visitRepeat`.
 -/
 import Model.IR
+import Model.PrintSearch
 namespace FV
+
+/-! ### expressions with embedded selectors -/
+
+inductive Seg where
+  /-- Python text, verbatim -/
+  | code (text : String)
+  /-- a selector occurrence (a placeholder and its search) -/
+  | sel (t : PS.Top)
+  deriving DecidableEq, Repr
+
+abbrev Expr := List Seg
+
+/-- flat lexical form of an expression -/
+inductive ETok where
+  | code (text : String)
+  | s (t : PS.STok)
+  deriving DecidableEq, Repr
+
+/-- placeholders substituted by `search.format_as_spec()` -/
+def printE : Expr → List ETok
+  | [] => []
+  | .code c :: r => .code c :: printE r
+  | .sel t :: r => (PS.printTop t).map .s ++ printE r
+
+/-- end of a run of selector tokens -/
+def flushE (cur : List PS.STok) : Option Expr :=
+  if cur.isEmpty then some [] else (PS.readTop cur).map (fun t => [.sel t])
+
+/-- `SearchProcessor` over the expression: every maximal run of selector tokens is one occurrence -/
+def readEAux : List PS.STok → List ETok → Option Expr
+  | cur, [] => flushE cur
+  | cur, .s t :: r => readEAux (cur ++ [t]) r
+  | cur, .code c :: r =>
+    match flushE cur, readEAux [] r with
+    | some a, some b => some (a ++ .code c :: b)
+    | _, _ => none
+
+def readE (ts : List ETok) : Option Expr := readEAux [] ts
+
+/-- expressible: every selector is, and no two selector occurrences are adjacent -/
+def wfE : Expr → Bool
+  | [] => true
+  | .code _ :: r => wfE r
+  | [.sel t] => PS.wfTop t
+  | .sel t :: .code c :: r => PS.wfTop t && wfE (.code c :: r)
+  | .sel _ :: .sel _ :: _ => false
+
+def normE : Expr → Expr
+  | [] => []
+  | .code c :: r => .code c :: normE r
+  | .sel t :: r => .sel (PS.normTop t) :: normE r
+
+/-- a bound of a computed repetition: `expr_data_min` / `expr_data_max` (`text.isdigit()` or not) -/
+inductive Bound where
+  | num (n : Nat)
+  | expr (e : Expr)
+  deriving DecidableEq, Repr
+
+/-- the bounds a `RepetitionBoundsConstraint` holds -/
+inductive CB where
+  /-- `{e}`: `expr_data_max is expr_data_min` -/
+  | single (e : Expr)
+  /-- `{lo,hi}`; `hi = none`: no upper bound was written (`expr_data_max` is the default cap) -/
+  | range (lo : Bound) (hi : Option Bound)
+  deriving DecidableEq, Repr
+
+inductive BoundT where
+  | num (n : Nat)
+  | expr (ts : List ETok)
+  deriving DecidableEq, Repr
+
+/-- the brace group of a computed repetition as written: `{e}` or `{lo?,hi?}` -/
+inductive CBT where
+  | single (ts : List ETok)
+  | range (lo hi : Option BoundT)
+  deriving DecidableEq, Repr
+
+def printB : Bound → BoundT
+  | .num n => .num n
+  | .expr e => .expr (printE e)
+
+/-- `RepetitionBoundsConstraint.format_bounds_as_spec` -/
+def printCB : CB → CBT
+  | .single e => .single (printE e)
+  | .range lo hi => .range (some (printB lo)) (hi.map printB)
+
+def readB : BoundT → Option Bound
+  | .num n => some (.num n)
+  | .expr ts => (readE ts).map .expr
+
+def Bound.isExpr : Bound → Bool
+  | .expr _ => true
+  | .num _ => false
+
+/-- `min_` of the `Repetition` built for a computed repetition: `1` for `{e}`; for `{lo,hi}` the
+    literal lower bound, `0` (then `1`: "if min_arg == 0: min_arg = 1") otherwise -/
+def cbMin : CB → Nat
+  | .single _ => 1
+  | .range (.num k) _ => if k = 0 then 1 else k
+  | .range (.expr _) _ => 1
+
+/-- `max_`: a literal upper bound, raised to the minimum; else open -/
+def cbMax : CB → Option Nat
+  | .single _ => none
+  | .range lo (some (.num m)) => some (max m (cbMin (.range lo none)))
+  | .range _ _ => none
+
+def wfB : Bound → Bool
+  | .num _ => true
+  | .expr e => wfE e
+
+def normB : Bound → Bound
+  | .num n => .num n
+  | .expr e => .expr (normE e)
+
+def normCB : CB → CB
+  | .single e => .single (normE e)
+  | .range lo hi => .range (normB lo) (hi.map normB)
+
+/-- the IR of `Model/IR.lean` plus repetitions with computed bounds -/
+inductive ENode where
+  | term (t : Term)
+  | nt (name : String) (sender recipient : Option String)
+  | alt (id : String) (ns : List ENode)
+  | cat (id : String) (ns : List ENode)
+  | rep (id : String) (kind : RepKind) (n : ENode) (min : Nat) (max : Option Nat)
+  /-- `Repetition` with a `bounds_constraint` -/
+  | crep (id : String) (n : ENode) (b : CB)
+  deriving Repr
+
+mutual
+/-- the grammar node alone: a computed repetition as the static `min`/`max` it is built with -/
+def erase : ENode → Node
+  | .term t => .term t
+  | .nt n s r => .nt n s r
+  | .alt id ns => .alt id (eraseL ns)
+  | .cat id ns => .cat id (eraseL ns)
+  | .rep id k n mn mx => .rep id k (erase n) mn mx
+  | .crep id n b => .rep id .braces (erase n) (cbMin b) (cbMax b)
+def eraseL : List ENode → List Node
+  | [] => []
+  | n :: ns => erase n :: eraseL ns
+end
+
+mutual
+/-- a plain IR node as an `ENode` -/
+def embed : Node → ENode
+  | .term t => .term t
+  | .nt n s r => .nt n s r
+  | .alt id ns => .alt id (embedL ns)
+  | .cat id ns => .cat id (embedL ns)
+  | .rep id k n mn mx => .rep id k (embed n) mn mx
+def embedL : List Node → List ENode
+  | [] => []
+  | n :: ns => embed n :: embedL ns
+end
 
 inductive PTok where
   | lp | rp | bar
@@ -32,6 +205,8 @@ inductive PTok where
   | repNM (n m : Nat)
   /-- `{n,}` -/
   | repOpen (n : Nat)
+  /-- a brace group with a computed bound -/
+  | repC (b : CBT)
   | nt (name : String) (sender recipient : Option String)
   | lit (l : Leaf)
   | re (id : Nat)
@@ -74,9 +249,10 @@ def PrintCfg.Sound (c : PrintCfg) : Prop :=
 
 instance (c : PrintCfg) : Decidable c.Sound := by unfold PrintCfg.Sound; exact inferInstance
 
-def needsParen (c : PrintCfg) : Node → Bool
+def needsParen (c : PrintCfg) : ENode → Bool
   | .cat _ _ => c.parenCat
   | .rep _ _ _ _ _ => c.parenRep
+  | .crep _ _ _ => c.parenRep
   | .alt _ _ => c.parenAlt
   | .term _ => false
   | .nt _ _ _ => false
@@ -102,7 +278,7 @@ def printedRecipient (sender recipient : Option String) : Option String :=
 
 mutual
 /-- `node.format_as_spec()` as a token list -/
-def print (c : PrintCfg) : Node → List PTok
+def print (c : PrintCfg) : ENode → List PTok
   | .term (.lit l) => [.lit l]
   | .term (.regex i) => [.re i]
   | .nt n s r => [.nt n s (printedRecipient s r)]
@@ -110,15 +286,17 @@ def print (c : PrintCfg) : Node → List PTok
   | .cat _ ns => printCat c ns
   | .rep _ k n mn mx =>
     (if needsParen c n then .lp :: (print c n ++ [.rp]) else print c n) ++ [suffixTok c k mn mx]
+  | .crep _ n b =>
+    (if needsParen c n then .lp :: (print c n ++ [.rp]) else print c n) ++ [.repC (printCB b)]
 /-- `" | ".join(…)` -/
-def printAlts (c : PrintCfg) : List Node → List PTok
+def printAlts (c : PrintCfg) : List ENode → List PTok
   | [] => []
   | n :: ns => print c n ++ printAltsTail c ns
-def printAltsTail (c : PrintCfg) : List Node → List PTok
+def printAltsTail (c : PrintCfg) : List ENode → List PTok
   | [] => []
   | n :: ns => .bar :: (print c n ++ printAltsTail c ns)
 /-- `" ".join(…)` -/
-def printCat (c : PrintCfg) : List Node → List PTok
+def printCat (c : PrintCfg) : List ENode → List PTok
   | [] => []
   | n :: ns => print c n ++ printCat c ns
 end
@@ -136,16 +314,27 @@ def kindOk (cap : Nat) (k : RepKind) (mn : Nat) (mx : Option Nat) : Bool :=
   | .braces, some m => decide (0 < m) && decide (mn ≤ m)
   | _, _ => false
 
+/-- computed bounds the front end builds: at least one bound is an expression (else the repetition
+    is a plain one), the expressions are expressible, the static bounds are accepted by
+    `Repetition.__init__` -/
+def wfCB (cap : Nat) (b : CB) : Bool :=
+  (match b with
+   | .single e => wfE e
+   | .range lo none => lo.isExpr && wfB lo
+   | .range lo (some hi) => (lo.isExpr || hi.isExpr) && wfB lo && wfB hi)
+  && kindOk cap .braces (cbMin b) (cbMax b)
+
 mutual
 /-- expressible: no empty alternative / concatenation (the first is asserted by `Alternative`, the
     second prints as the empty string), legal repetition bounds, no recipient without a sender -/
-def wf (cap : Nat) : Node → Bool
+def wf (cap : Nat) : ENode → Bool
   | .term _ => true
   | .nt _ s r => s.isSome || r.isNone
   | .alt _ ns => !ns.isEmpty && wfL cap ns
   | .cat _ ns => !ns.isEmpty && wfL cap ns
   | .rep _ k n mn mx => wf cap n && kindOk cap k mn mx
-def wfL (cap : Nat) : List Node → Bool
+  | .crep _ n b => wf cap n && wfCB cap b
+def wfL (cap : Nat) : List ENode → Bool
   | [] => true
   | n :: ns => wf cap n && wfL cap ns
 end
@@ -153,13 +342,14 @@ end
 mutual
 /-- the shapes the front end itself builds: every alternative and every sequence has at least two
     members (`visitAlternative` / `visitConcatenation` return a single member as it is) -/
-def shaped : Node → Bool
+def shaped : ENode → Bool
   | .term _ => true
   | .nt _ _ _ => true
   | .alt _ ns => decide (2 ≤ ns.length) && shapedL ns
   | .cat _ ns => decide (2 ≤ ns.length) && shapedL ns
   | .rep _ _ n _ _ => shaped n
-def shapedL : List Node → Bool
+  | .crep _ n _ => shaped n
+def shapedL : List ENode → Bool
   | [] => true
   | n :: ns => shaped n && shapedL ns
 end
@@ -167,35 +357,37 @@ end
 /-! ### what reading back produces: ids erased, singletons collapsed, directly nested sequences spliced -/
 
 /-- `visitAlternative`: a single branch is returned as it is -/
-def mkAlt : List Node → Node
+def mkAlt : List ENode → ENode
   | [x] => x
   | xs => .alt "" xs
 
 /-- `visitConcatenation`: a single operator is returned as it is -/
-def mkCat : List Node → Node
+def mkCat : List ENode → ENode
   | [x] => x
   | xs => .cat "" xs
 
 mutual
 /-- the node `read (print n)` yields -/
-def norm : Node → Node
+def norm : ENode → ENode
   | .term t => .term t
   | .nt n s r => .nt n s (printedRecipient s r)
   | .alt _ ns => mkAlt (normL ns)
   | .cat _ ns => mkCat (itemsL ns)
   | .rep _ k n mn mx => .rep "" k (norm n) mn mx
-def normL : List Node → List Node
+  | .crep _ n b => .crep "" (norm n) (normCB b)
+def normL : List ENode → List ENode
   | [] => []
   | n :: ns => norm n :: normL ns
 /-- the operator-level items a node contributes to an enclosing sequence: a `Concatenation` is
     printed bare, so its items splice into the parent's -/
-def items : Node → List Node
+def items : ENode → List ENode
   | .term t => [.term t]
   | .nt n s r => [.nt n s (printedRecipient s r)]
   | .alt _ ns => [mkAlt (normL ns)]
   | .cat _ ns => itemsL ns
   | .rep _ k n mn mx => [.rep "" k (norm n) mn mx]
-def itemsL : List Node → List Node
+  | .crep _ n b => [.crep "" (norm n) (normCB b)]
+def itemsL : List ENode → List ENode
   | [] => []
   | n :: ns => items n ++ itemsL ns
 end
@@ -210,28 +402,53 @@ function is a fold over the tokens). -/
 
 structure Frame where
   /-- finished branches of the group, latest first -/
-  alts : List Node
+  alts : List ENode
   /-- operators of the current branch, latest first -/
-  items : List Node
+  items : List ENode
   /-- the latest operator is a bare symbol (may still take one postfix operator) -/
   sym : Bool
   deriving Repr
 
 def Frame.empty : Frame := ⟨[], [], false⟩
-def Frame.push (f : Frame) (n : Node) : Frame := { f with items := n :: f.items, sym := true }
+def Frame.push (f : Frame) (n : ENode) : Frame := { f with items := n :: f.items, sym := true }
 
 /-- the branches of a group in source order -/
-def Frame.branches (f : Frame) : List Node := (mkCat f.items.reverse :: f.alts).reverse
+def Frame.branches (f : Frame) : List ENode := (mkCat f.items.reverse :: f.alts).reverse
 
 /-- end of a group / of the input: `visitAlternative` over the branches -/
-def closeFrame (f : Frame) : Option Node :=
+def closeFrame (f : Frame) : Option ENode :=
   match f.items with
   | [] => none
   | _ :: _ => some (mkAlt f.branches)
 
+/-- `visitRepeat` for a brace group with a comma, after the bounds have been read: literal bounds only
+    → a plain repetition; else a computed one (an omitted lower bound is `0`) -/
+def mkRange (cap : Nat) (n : ENode) (lo hi : Option Bound) : Option ENode :=
+  let computed := (match lo with | some b => b.isExpr | none => false) ||
+                  (match hi with | some b => b.isExpr | none => false)
+  if computed then
+    let b := CB.range (lo.getD (.num 0)) hi
+    if kindOk cap .braces (cbMin b) (cbMax b) then some (.crep "" n b) else none
+  else
+    let mn := match lo with | some (.num k) => k | _ => 0
+    let mx := match hi with | some (.num m) => some m | _ => none
+    if kindOk cap .braces mn mx then some (.rep "" .braces n mn mx) else none
+
+def readOptB : Option BoundT → Option (Option Bound)
+  | none => some none
+  | some b => (readB b).map some
+
 /-- `visitKleene/visitPlus/visitOption/visitRepeat`; `none` where `Repetition.__init__` raises -/
-def mkRep (cap : Nat) (t : PTok) (n : Node) : Option Node :=
+def mkRep (cap : Nat) (t : PTok) (n : ENode) : Option ENode :=
   match t with
+  | .repC (.single ts) =>
+    match readE ts with
+    | some e => if kindOk cap .braces 1 none then some (.crep "" n (.single e)) else none
+    | none => none
+  | .repC (.range lo hi) =>
+    match readOptB lo, readOptB hi with
+    | some l, some h => mkRange cap n l h
+    | _, _ => none
   | .star => if 0 < cap then some (.rep "" .star n 0 none) else none
   | .plus => if 0 < cap then some (.rep "" .plus n 1 none) else none
   | .quest => some (.rep "" .opt n 0 (some 1))
@@ -277,7 +494,7 @@ def run (cap : Nat) : RState → List PTok → Option RState
     | none => none
 
 /-- the right-hand side of a production, read back; `none` = the front end rejects the text -/
-def read (cap : Nat) (ts : List PTok) : Option Node :=
+def read (cap : Nat) (ts : List PTok) : Option ENode :=
   match run cap (Frame.empty, []) ts with
   | some (f, []) => closeFrame f
   | _ => none
@@ -285,7 +502,7 @@ def read (cap : Nat) (ts : List PTok) : Option Node :=
 /-! ### layout of the printed text (where `format_as_spec` puts blanks) -/
 
 def PTok.isPostfix : PTok → Bool
-  | .star | .plus | .quest | .repN _ | .repNM _ _ | .repOpen _ => true
+  | .star | .plus | .quest | .repN _ | .repNM _ _ | .repOpen _ | .repC _ => true
   | _ => false
 
 /-- tokens after which a postfix operator is legal: an atom or a closing parenthesis -/
@@ -300,5 +517,64 @@ def postfixOk : Option PTok → List PTok → Bool
   | prev, t :: ts =>
     (if t.isPostfix then (match prev with | some p => p.endsSymbol | none => false) else true)
       && postfixOk (some t) ts
+
+/-! ### productions and grammars: `Grammar.__repr__` / `get_repr_for_rule`,
+`production: nonterminal '::=' alternative (':=' expression)?`, `GrammarProcessor.get_grammar` -/
+
+structure Rule where
+  name : String
+  rhs : ENode
+  /-- `LiteralGenerator`: the generator expression with its symbol arguments -/
+  gen : Option Expr
+  deriving Repr
+
+/-- one printed production, as the parser splits it -/
+structure RuleText where
+  name : String
+  rhs : List PTok
+  /-- the expression behind `:=` -/
+  gen : Option (List ETok)
+  deriving Repr
+
+def printRule (c : PrintCfg) (r : Rule) : RuleText :=
+  ⟨r.name, print c r.rhs, r.gen.map printE⟩
+
+def readRule (cap : Nat) (t : RuleText) : Option Rule :=
+  match read cap t.rhs, (match t.gen with | none => some none | some g => (readE g).map some) with
+  | some n, some g => some ⟨t.name, n, g⟩
+  | _, _ => none
+
+def wfRule (cap : Nat) (r : Rule) : Bool :=
+  wf cap r.rhs && (match r.gen with | none => true | some g => wfE g)
+
+def normRule (r : Rule) : Rule := ⟨r.name, norm r.rhs, r.gen.map normE⟩
+
+/-- `"\n".join(…)` over the rules -/
+def printG (c : PrintCfg) : List Rule → List RuleText
+  | [] => []
+  | r :: rs => printRule c r :: printG c rs
+
+/-- a later production of a symbol replaces the earlier one and its generator, at the earlier one's
+    place (`grammar[symbol] = …`, `remove_generator`, then `set_generator`) -/
+def setRule (r : Rule) : List Rule → List Rule
+  | [] => [r]
+  | x :: xs => if x.name = r.name then r :: xs else x :: setRule r xs
+
+def readGAux (cap : Nat) (acc : List Rule) : List RuleText → Option (List Rule)
+  | [] => some acc
+  | t :: ts =>
+    match readRule cap t with
+    | some r => readGAux cap (setRule r acc) ts
+    | none => none
+
+def readG (cap : Nat) (ts : List RuleText) : Option (List Rule) := readGAux cap [] ts
+
+def wfG (cap : Nat) : List Rule → Bool
+  | [] => true
+  | r :: rs => wfRule cap r && rs.all (fun x => x.name != r.name) && wfG cap rs
+
+def normG : List Rule → List Rule
+  | [] => []
+  | r :: rs => normRule r :: normG rs
 
 end FV
